@@ -61,6 +61,7 @@ def run(prog, chk):
     chk.rule("C10.a", "ORD/CNT: publication order in proc / set / result conversion / destructor / startProc / join", floor=10)
     chk.rule("C10.b", "MPT: every wait on a queue signal is preceded in the same iteration by reset() and a second attempt of the queue "
                       "operation, and is reached only when that second attempt failed", floor=3)
+    chk.rule("C10.i", "CNT: after a successful push of a job no path evaluates another push of that job (one hand-over per job)", floor=2)
     chk.rule("C10.c", "MPT: every successful push is followed by _enqueuedSignal.set(), every successful pop by _dequeuedSignal.set() "
                       "(exception: the retire-a-worker ticket pushed under the pool mutex in run())", floor=3)
     chk.rule("C10.d", "WHO/ORD: ring indices, slot tickets, FastSignal state and job counters are written only through Atomic::*; the slot is "
@@ -243,6 +244,37 @@ def run(prog, chk):
                             f.path_lines(pth) if pth else None)
         if exempt:
             chk.note("C10.c exception: retire-a-worker push under the pool mutex in ThreadPool::run (%d site) needs no wake-up" % len(exempt))
+        # C10.i: one hand-over per job - once a push of a job has succeeded, no further push of the same job is evaluated
+        if op == "push":
+            for o in ops:
+                def job_id(x):
+                    a_ = q.call_args(f, x)
+                    n_ = f.nodes[f.strip(a_[0])] if a_ else None
+                    return n_["ref"].get("id") if n_ is not None and n_["k"] == "DeclRefExpr" else None
+                same = [x for x in ops if job_id(x) is not None and job_id(x) == job_id(o)]
+                lb_o = C.loop_blocks(f, o) or set()      # the loop nest around this push; leaving it, or waking the consumer, ends the hand-over of this job
+                outside = set((b_, i_) for b_ in f.blocks if b_ not in lb_o for i_ in range(len(f.blocks[b_]["el"]) + 1))
+                for b in f.blocks.values():
+                    c = b.get("cond")
+                    if c is None or o not in ([f.strip(c)] + list(f.desc(c))) or len(b["succ"]) != 2:
+                        continue
+                    v1 = fin.eval_expr(f, c, {fin.key(f, o): 1})
+                    v0 = fin.eval_expr(f, c, {fin.key(f, o): 0})
+                    if v1 is None or v0 is None or bool(v1) == bool(v0):
+                        continue
+                    succ_edge = b["succ"][0] if v1 else b["succ"][1]
+                    if succ_edge is None:
+                        continue
+                    if succ_edge not in lb_o:
+                        chk.ok("C10.i", f, "the successful %s at line %s leaves the retry loop" % (f.r(o)[:40], f.nodes[o]["l"]), f.where(o), "success edge", evals=1)
+                        continue
+                    again = f.find_path((succ_edge, 0), q.pos_of(f, same), avoid=outside | q.pos_of(f, wakes), after_src=False)
+                    if again is not None:
+                        chk.bad("C10.i", f, "job-pushed-again-after-success", f.where(o),
+                                "after `%s` succeeded a path (lines %s) evaluates a push of the same job again: the job is queued twice, the "
+                                "call runs twice and its record is deleted twice" % (f.r(o)[:50], f.path_lines(again)[:8]), evals=2)
+                    else:
+                        chk.ok("C10.i", f, "no second push after the successful %s at line %s" % (f.r(o)[:40], f.nodes[o]["l"]), f.where(o), "path search from the success edge", evals=2)
 
     # ------------------------------------------------------------------ C10.d
     shared = {"_tail", "_head", "tail", "head", "_state", "_pushedJobs", "_processedJobs"}
